@@ -279,6 +279,13 @@ class Parser:
             if hook:
                 # `#[cfg(feature = "recmo_uint_verif")] <statement>`: the verification hooks (add-only instrumentation,
                 # absent with the guard off) are not part of the translated function
+                while self.peek()[1] == '#':          # further attributes of the same statement
+                    self.next()
+                    self.expect('[')
+                    depth = 1
+                    while depth:
+                        x = self.next()[1]
+                        depth += (x == '[') - (x == ']')
                 self.parse_stmt()
             return None
         if v == 'assert_eq!':
@@ -665,6 +672,12 @@ class Parser:
                     body = ('block', [st])
                 else:
                     body = self.parse_expr()
+                    if self.peek()[1] in ('=', '+=', '-=', '*=', '/=', '%=', '&=', '|=', '^=', '<<=', '>>='):
+                        op = self.next()[1]                 # `pat => place = value,`
+                        rhs = self.parse_expr()
+                        if op != '=':
+                            rhs = ('bin', op[:-1], body, rhs)
+                        body = ('block', [('assign', body, rhs)])
                 self.accept(',')
                 arms.append((pat, body))
             return ('match', scrut, arms)
@@ -758,6 +771,8 @@ class Emitter:
             return str(e[1]), t
         if k == 'bool':
             return ('true' if e[1] else 'false'), 'bool'
+        if k == 'raw':
+            return e[1], e[2]                 # a Lean term produced by the translator itself (pattern tests / projections)
         if k == 'path':
             p = e[1]
             if len(p) == 1:
@@ -967,6 +982,84 @@ class Emitter:
             return 'none'
         return '0'
 
+    def pat_walk(self, pat, term, ty, conds, binds):
+        if pat[0] == 'mwild':
+            return
+        if pat[0] == 'mbind':
+            binds.append((pat[1], term, ty))
+            return
+        if pat[0] == 'mbool':
+            conds.append(term if pat[1] else '(!%s)' % term)
+            return
+        if pat[0] == 'mlit':
+            v = pat[1]
+            if v < 0:
+                v += 2 ** self.w(ty)           # two's complement at the scrutinee's width
+            conds.append('(%s == %d)' % (term, v))
+            return
+        if pat[0] == 'mctor' and ty == 'Ordering' and pat[1][0] == 'Ordering' and not pat[2]:
+            conds.append('(%s == Ordering.%s)' % (term, {'Less': 'lt', 'Equal': 'eq', 'Greater': 'gt'}[pat[1][1]]))
+            return
+        if pat[0] == 'mctor':
+            name = pat[1][-1]
+            if isinstance(ty, tuple) and ty[0] == 'result' and name in ('Ok', 'Err') and len(pat[2]) == 1:
+                if name == 'Ok':
+                    conds.append('(Rs.isOk %s)' % term)
+                    self.pat_walk(pat[2][0], '(Rs.okD %s %s)' % (self.default_of(ty[1]), term), ty[1], conds, binds)
+                else:
+                    conds.append('(!(Rs.isOk %s))' % term)
+                    self.pat_walk(pat[2][0], '(Rs.errD %s %s)' % (self.default_of(ty[2]), term), ty[2], conds, binds)
+                return
+            if isinstance(ty, tuple) and ty[0] == 'option' and name in ('Some', 'None'):
+                if name == 'None':
+                    conds.append('((%s).isNone)' % term)
+                else:
+                    conds.append('((%s).isSome)' % term)
+                    self.pat_walk(pat[2][0], '((%s).getD %s)' % (term, self.default_of(ty[1])), ty[1], conds, binds)
+                return
+            if isinstance(ty, tuple) and ty[0] == 'enum' and len(pat[1]) == 2 and (pat[1][0] == ty[1] or pat[1][0] == 'Self'):
+                variants = self.enums[ty[1]]
+                idx = [v for v, _ in variants].index(name)
+                conds.append('((%s).1 == %d)' % (term, idx))
+                slots = self.enum_slots(ty)
+                subs = pat[2]
+                if subs and subs[-1] == ('mrest',):
+                    subs = subs[:-1]
+                for i, q in enumerate(subs):
+                    proj = '.2' * (i + 1) + ('.1' if i < len(slots) - 1 else '')
+                    self.pat_walk(q, '(%s)%s' % (term, proj), slots[i], conds, binds)
+                return
+            raise TranslateError('constructor pattern %s against %r' % ('::'.join(pat[1]), ty))
+        if pat[0] == 'mor':
+            # alternatives: the arm is taken when one matches; bindings come from the first alternative that does
+            allb = []
+            cs = []
+            for alt in pat[1]:
+                c2, b2 = [], []
+                self.pat_walk(alt, term, ty, c2, b2)
+                cs.append('(' + (' && '.join(c2) if c2 else 'true') + ')')
+                allb.append(b2)
+            conds.append('(' + ' || '.join(cs) + ')')
+            names = [n for n, _, _ in allb[0]]
+            if any([n for n, _, _ in b] != names for b in allb):
+                raise TranslateError('alternatives bind different names')
+            for k_, n in enumerate(names):
+                t_ = allb[-1][k_][1]
+                for j in range(len(allb) - 2, -1, -1):
+                    t_ = '(if %s then %s else %s)' % (cs[j], allb[j][k_][1], t_)
+                binds.append((n, t_, allb[0][k_][2]))
+            return
+        if pat[0] == 'mrest':
+            return
+        if pat[0] == 'mtuple':
+            if not (isinstance(ty, tuple) and ty[0] == 'tuple' and len(ty[1]) == len(pat[1])):
+                raise TranslateError('tuple pattern against %r' % (ty,))
+            n = len(pat[1])
+            for i, q in enumerate(pat[1]):
+                self.pat_walk(q, term + '.2' * i + ('.1' if i < n - 1 else ''), ty[1][i], conds, binds)
+            return
+        raise TranslateError('unsupported pattern')
+
     def match_ret(self, e, env, result):
         """a `match` in return position with `panic!` arms: every other arm returns its value, a panic arm panics"""
         return self.match_expr(e, env, self.inner_rt, ret=(result,))
@@ -980,80 +1073,7 @@ class Emitter:
         self.tmp = getattr(self, 'tmp', 0) + 1
         t = 'sel%d' % self.tmp
 
-        def walk(pat, term, ty, conds, binds):
-            if pat[0] == 'mwild':
-                return
-            if pat[0] == 'mbind':
-                binds.append((pat[1], term, ty))
-                return
-            if pat[0] == 'mbool':
-                conds.append(term if pat[1] else '(!%s)' % term)
-                return
-            if pat[0] == 'mlit':
-                v = pat[1]
-                if v < 0:
-                    v += 2 ** self.w(ty)           # two's complement at the scrutinee's width
-                conds.append('(%s == %d)' % (term, v))
-                return
-            if pat[0] == 'mctor':
-                name = pat[1][-1]
-                if isinstance(ty, tuple) and ty[0] == 'result' and name in ('Ok', 'Err') and len(pat[2]) == 1:
-                    if name == 'Ok':
-                        conds.append('(Rs.isOk %s)' % term)
-                        walk(pat[2][0], '(Rs.okD %s %s)' % (self.default_of(ty[1]), term), ty[1], conds, binds)
-                    else:
-                        conds.append('(!(Rs.isOk %s))' % term)
-                        walk(pat[2][0], '(Rs.errD %s %s)' % (self.default_of(ty[2]), term), ty[2], conds, binds)
-                    return
-                if isinstance(ty, tuple) and ty[0] == 'option' and name in ('Some', 'None'):
-                    if name == 'None':
-                        conds.append('((%s).isNone)' % term)
-                    else:
-                        conds.append('((%s).isSome)' % term)
-                        walk(pat[2][0], '((%s).getD %s)' % (term, self.default_of(ty[1])), ty[1], conds, binds)
-                    return
-                if isinstance(ty, tuple) and ty[0] == 'enum' and len(pat[1]) == 2 and (pat[1][0] == ty[1] or pat[1][0] == 'Self'):
-                    variants = self.enums[ty[1]]
-                    idx = [v for v, _ in variants].index(name)
-                    conds.append('((%s).1 == %d)' % (term, idx))
-                    slots = self.enum_slots(ty)
-                    subs = pat[2]
-                    if subs and subs[-1] == ('mrest',):
-                        subs = subs[:-1]
-                    for i, q in enumerate(subs):
-                        proj = '.2' * (i + 1) + ('.1' if i < len(slots) - 1 else '')
-                        walk(q, '(%s)%s' % (term, proj), slots[i], conds, binds)
-                    return
-                raise TranslateError('constructor pattern %s against %r' % ('::'.join(pat[1]), ty))
-            if pat[0] == 'mor':
-                # alternatives: the arm is taken when one matches; bindings come from the first alternative that does
-                allb = []
-                cs = []
-                for alt in pat[1]:
-                    c2, b2 = [], []
-                    walk(alt, term, ty, c2, b2)
-                    cs.append('(' + (' && '.join(c2) if c2 else 'true') + ')')
-                    allb.append(b2)
-                conds.append('(' + ' || '.join(cs) + ')')
-                names = [n for n, _, _ in allb[0]]
-                if any([n for n, _, _ in b] != names for b in allb):
-                    raise TranslateError('alternatives bind different names')
-                for k_, n in enumerate(names):
-                    t_ = allb[-1][k_][1]
-                    for j in range(len(allb) - 2, -1, -1):
-                        t_ = '(if %s then %s else %s)' % (cs[j], allb[j][k_][1], t_)
-                    binds.append((n, t_, allb[0][k_][2]))
-                return
-            if pat[0] == 'mrest':
-                return
-            if pat[0] == 'mtuple':
-                if not (isinstance(ty, tuple) and ty[0] == 'tuple' and len(ty[1]) == len(pat[1])):
-                    raise TranslateError('tuple pattern against %r' % (ty,))
-                n = len(pat[1])
-                for i, q in enumerate(pat[1]):
-                    walk(q, term + '.2' * i + ('.1' if i < n - 1 else ''), ty[1][i], conds, binds)
-                return
-            raise TranslateError('unsupported pattern')
+        walk = self.pat_walk
         out = None
         rt = None
         for k, (pat, body) in reversed(list(enumerate(arms))):
@@ -1145,6 +1165,9 @@ class Emitter:
                 return '((%s + 2 ^ BITS - %s) %% 2 ^ BITS)' % (sa, sb), 'uint'
             if op == '*':
                 return '((%s * %s) %% 2 ^ BITS)' % (sa, sb), 'uint'
+            if op in ('/', '%') and getattr(self, 'div_panics', False):
+                # the panic on a zero divisor is part of the translation: `none`
+                return '(if %s == 0 then none else some (%s %s %s))' % (sb, sa, {'/': '/', '%': '%%'}[op], sb), ('option', 'uint')
             if op == '%':
                 # `a % m` on Uint panics for m = 0; the value-level term is Lean's total `%` (a for m = 0): callers guard it
                 return '(%s %% %s)' % (sa, sb), 'uint'
@@ -1185,6 +1208,10 @@ class Emitter:
         if len(path) == 1:
             if name in ('unlikely', 'likely', 'Wrapping'):
                 return self.expr(args[0], env, exp)
+            if name == 'min' and len(args) == 2:           # `core::cmp::min` imported by name
+                sa, ta = self.expr(args[0], env, exp)
+                sb, _ = self.expr(args[1], env, ta)
+                return '(min %s %s)' % (sa, sb), ta
             if name in ('le_word', 'be_word') and len(args) == 2:
                 # stands for `u64::from_le_bytes` / `from_be_bytes` of the 8 bytes at the given offset (see the item's `rewrite`)
                 sb, _ = self.expr(args[0], env)
@@ -1235,7 +1262,7 @@ class Emitter:
             # `Self::Error::Variant(..)`
             et_ = self.ty(('assoc', 'Error'))
             return self.enum_value([et_[1], path[2]], args, env, et_)
-        if path[-2:] == ['cmp', 'min'] and len(args) == 2:
+        if (path[-2:] == ['cmp', 'min'] or path == ['min']) and len(args) == 2:
             sa, ta = self.expr(args[0], env, exp)
             sb, _ = self.expr(args[1], env, ta)
             return '(min %s %s)' % (sa, sb), ta
@@ -1418,6 +1445,9 @@ class Emitter:
                 if name == 'checked_div':
                     return '(' + tmpl % (aa[0], sr, aa[0]) + ')', rt
                 return '(' + tmpl % tuple([sr] + aa) + ')', rt
+            if name == 'cmp' and len(args) == 1:
+                sb, _ = self.expr(args[0], env, 'uint')        # `Ord for Uint` is the order of the values (C04)
+                return '(compare %s %s)' % (sr, sb), 'Ordering'
             raise TranslateError('Uint method %s has no value-level meaning here' % name)
         if isinstance(tr, str) and tr in WIDTH:
             w = WIDTH[tr]
@@ -1586,6 +1616,12 @@ class Emitter:
                         for n in self.assigned(blk[1], declared):
                             if n not in local and n not in out:
                                 out.append(n)
+            elif s[0] in ('expr', 'expr_nosemi', 'tail') and s[1][0] == 'match':
+                for _, body in s[1][2]:
+                    if body[0] == 'block':
+                        for n in self.assigned(body[1], declared):
+                            if n not in local and n not in out:
+                                out.append(n)
         return out
 
     def target_roots(self, t):
@@ -1616,6 +1652,8 @@ class Emitter:
             return False
         if e[0] == 'mcall' and e[2] in ('expect', 'unwrap'):
             return True
+        if e[0] == 'bin' and e[1] in ('/', '%') and getattr(self, 'div_panics', False):
+            return True            # `Div` / `Rem for Uint` panic on a zero divisor (item flag `div_panics`: every `/`, `%` is one)
         if e[0] == 'call' and ('::'.join(e[1]) in getattr(self, 'panic_externs', ()) or e[1][-1] in getattr(self, 'panic_externs', ())):
             return True
         if e[0] == 'call' and e[1] == ['Self', 'from'] and getattr(self, 'uint_mode', False) == 'value':
@@ -2027,7 +2065,21 @@ class Emitter:
                     chain = blk(body)
                     continue
                 if pat[0] not in ('mlit', 'mbool'):
-                    raise TranslateError('statement match on a non-scalar pattern')
+                    # structured patterns (tuples, constructors, alternatives): the tests and bindings of `pat_walk`
+                    conds_, binds_ = [], []
+                    self.pat_walk(pat, t, te, conds_, binds_)
+                    b_ = blk(body)
+                    b_ = ('block', [('let', ('pid', n_), None, ('raw', term_, ty_)) for n_, term_, ty_ in binds_] + b_[1])
+                    if not conds_:
+                        if chain is not None:
+                            raise TranslateError('irrefutable match arm before the last one')
+                        chain = b_
+                        continue
+                    if chain is None:
+                        chain = b_                  # last arm: the final else (Rust has checked exhaustiveness)
+                        continue
+                    chain = ('block', [('expr_nosemi', ('if', ('raw', '(' + ' && '.join(conds_) + ')', 'bool'), b_, chain))])
+                    continue
                 v = pat[1]
                 if pat[0] == 'mlit':
                     if v < 0:
@@ -2674,6 +2726,20 @@ class Emitter:
                             raise TranslateError('a place alias needs a literal index')
                         lst = subst(lst, st[1][1], ('index', u[1], u[3][0]))
                         continue
+                if (st[0] == 'let' and st[1][0] == 'pid' and isinstance(st[3], tuple) and st[3][:1] == ('mcall',)
+                        and st[3][2] == 'map_or' and len(st[3][3]) == 2 and st[3][3][1][0] == 'closure'
+                        and len(st[3][3][1][1]) == 1 and getattr(self, 'div_panics', False)):
+                    # `let x = opt.map_or(d, |v| body);` whose body can panic: `if let Some(v) = opt { x = body } else { x = d }`
+                    cnt[0] += 1
+                    fresh_ = '%s_v%d' % (st[1][1], cnt[0])
+                    clo = st[3][3][1]
+                    var_ = clo[1][0]
+                    out.append(('let', ('pid', fresh_), None, ('uninit',)))
+                    out.append(('expr_nosemi', ('ifsome', var_, ex(st[3][1]),
+                                                ('block', [('assign', ('path', [fresh_]), ex(clo[2]))]),
+                                                ('block', [('assign', ('path', [fresh_]), ex(st[3][3][0]))]))))
+                    out.append(('let', st[1], st[2], ('path', [fresh_])))
+                    continue
                 if st[0] == 'let' and isinstance(st[3], tuple) and st[3] and (
                         (st[3][0] == 'if' and st[3][3] is not None) or st[3][0] == 'block') and effectful(st[3]) \
                         and unchecked(st[3]) is None:
@@ -2942,6 +3008,7 @@ def translate(items, namespace='Ruint.Gen', imports=('Ruint.Gen.Prelude',), fns=
             em.externs = it.get('externs', {})
             em.call_alias = it.get('call_alias', {})
             em.panic_externs = it.get('panic_externs', ())
+            em.div_panics = it.get('div_panics', False)
             em.method_rewrites = it.get('method_rewrites', {})
             # field-less / word-carrying enums declared in the same file (error types)
             em.enums = {}
@@ -3361,6 +3428,17 @@ def log_value_items(repo):
             dict(u, fn='log2', lean='val_log2', key='UintV::log2', rewrite=est + [(r'fn log2\(self\)', 'fn log2(self, est: Self)')])]
 
 
+def root_value_items(repo):
+    """src/root.rs in value mode: `root` with the libm-derived first guess as a parameter (declared rewrite: the
+    `approx_pow2(approx_log2() / degree)` line is replaced by `guess`); the Newton loop with its `match` on
+    `(decreasing, iter.cmp(&result))` is translated"""
+    f = repo + '/src/root.rs'
+    rw = [(r'let mut result = Self::approx_pow2\(self\.approx_log2\(\) / degree as f64\)\.unwrap\(\);', 'let mut result = guess;'),
+          (r'fn root\(self, degree: usize\) -> Self', 'fn root(self, degree: usize, guess: Self) -> Self')]
+    return [{'uint': 'value', 'group': 'rootv', 'self_ty': 'uint', 'file': f, 'fn': 'root', 'lean': 'val_root',
+             'key': 'UintV::root', 'rewrite': rw, 'div_panics': True}]
+
+
 def radix_items(repo):
     """src/base_convert.rs: digit-sequence conversions (limb mode; errors are (variant index, fields))"""
     f = repo + '/src/base_convert.rs'
@@ -3394,7 +3472,8 @@ GROUPS = [('core', 'Words', ('Ruint.Gen.Prelude',)),
           ('macro', 'WordsMacro', ('Ruint.Gen.Prelude',)),
           ('value', 'WordsValue', ('Ruint.Gen.Prelude', 'Ruint.Model.Modular')),
           ('gcdv', 'WordsGcd', ('Ruint.Gen.Prelude', 'Ruint.Model.Gcd')),
-          ('logv', 'WordsLog', ('Ruint.Gen.WordsValue', 'Ruint.Gen.PreludeRes'))]
+          ('logv', 'WordsLog', ('Ruint.Gen.WordsValue', 'Ruint.Gen.PreludeRes')),
+          ('rootv', 'WordsRoot', ('Ruint.Gen.WordsValue', 'Ruint.Gen.PreludeRes'))]
 
 
 def translate_all(repo):
@@ -3423,6 +3502,7 @@ def translate_all(repo):
     items += value_items(repo)
     items += gcd_value_items(repo)
     items += log_value_items(repo)
+    items += root_value_items(repo)
     try:
         items += lehmer_items(repo)
     except (OSError, IOError) as ex:
